@@ -173,6 +173,14 @@ def h2(*a, **k): return None
 def _m21(x): return 2 * x + 1
 
 
+def tgm(x):
+    return 2 * x + 1
+
+
+def op(x):
+    return ('this', x)
+
+
 def _shuffled(items, order_rng):
     items = list(items)
     if order_rng is not None:
@@ -187,8 +195,14 @@ def build(spec, order_rng):
     if k == 'bool': return bool(spec[1])
     if k == 'int': return int(spec[1])
     if k == 'float': return float.fromhex(spec[1]) if spec[1] not in ('inf',) else float('inf')
-    if k == 'str': return spec[1]
-    if k == 'bytes': return bytes.fromhex(spec[1])
+    if k == 'str':
+        # object identity of equal strings is not part of the value: one representation shares one object per distinct string,
+        # the other makes a fresh object for every occurrence (as split(), file reads, JSON decoding do)
+        import sys as _sys
+        return _sys.intern(spec[1]) if order_rng is None else ''.join(list(spec[1]))
+    if k == 'bytes':
+        b_ = bytes.fromhex(spec[1])
+        return b_ if order_rng is None else bytes(bytearray(b_))
     if k == 'complex': return complex(spec[1], spec[2])
     if k == 'npscalar': return getattr(np, spec[1])(spec[2])
     if k == 'list': return [build(s, order_rng) for s in spec[1]]
